@@ -901,6 +901,8 @@ struct Value {
 
     void Merge(Value &&val) {
         if (isUndefined()) {
+            // A moved-from value is Undefined but still holds its old bits.
+            reset();
             setTypeToArray();
         }
 
@@ -924,6 +926,8 @@ struct Value {
 
     void Merge(const Value &val) {
         if (isUndefined()) {
+            // A moved-from value is Undefined but still holds its old bits.
+            reset();
             setTypeToArray();
         }
 
